@@ -773,3 +773,73 @@ def _chain_prefix(fx, col, quiet, cx, top):
             col.add('TXN-CLOSED', '%s|before close call' % b.fname, not bad, '; '.join(bad) or 'only quiet operations before the confirming call', b.loc(bb))
             if cb.key != b.key and not any(s.cls == 'control' for s in cx.summ.sites_by_body.get(cb.key, ())):
                 _chain_prefix(fx, col, quiet, cx, cb)
+
+
+# --------------------------------------------------------------------------------------------
+# NODE-STABLE: a frame that works on the thread's own node across a call that can re-enter the
+# library keeps that node from being handed to another thread
+
+def _may_reenter(fx, cx):
+    """lib bodies from which a call can re-enter the library on this thread and replace the thread's
+    node: they (transitively) call a closure-typed parameter / trait method on a type parameter that
+    is not one of RefCnt's conversions, or reach a body that takes/sets LocalNode.node"""
+    lib = fx.lib
+    direct = set()
+    for b in lib.bodies:
+        for bb, t in b.calls(include_cleanup=False):
+            c = t['callee']
+            if c.get('self_is_param') and (c.get('trait_pretty') or '').endswith(('ops::Fn', 'ops::FnMut', 'ops::FnOnce')):
+                direct.add(b.key)
+            if 'cell::Cell' in c.get('path', '') and U.callee_name(t) in ('take', 'set', 'replace') and t['args'] and _is_node_cell(b, t['args'][0]):
+                direct.add(b.key)
+    out = set()
+    for b in lib.bodies:
+        if cx.summ.reach(b.key) & direct:
+            out.add(b.key)
+    return out
+
+
+def rule_node_stable(fx, col):
+    cx = O.ctx(fx)
+    lib = fx.lib
+    reenter = _may_reenter(fx, cx)
+    n = 0
+    for b in lib.bodies:
+        if b.j.get('impl_self_adt') != NODE_CELL[0] or b.kind != 'AssocFn' or b.j.get('impl_trait'):
+            continue
+        # node references obtained from the thread's handle
+        gets = [(bb, t) for bb, t in b.calls(include_cleanup=False)
+                if U.callee_name(t) == 'get' and 'cell::Cell' in t['callee'].get('path', '') and t['args'] and _is_node_cell(b, t['args'][0])]
+        if not gets:
+            continue
+        thr = lambda tt: [0] if (U.callee_name(tt) in ('expect', 'unwrap') and 'option::Option' in tt['callee'].get('path', '')) else None
+        for bb, t in b.calls(include_cleanup=False):
+            ck = t['callee'].get('resolved') or t['callee'].get('key')
+            cb = lib.by_key.get(ck)
+            if cb is None or cb.key not in reenter or cb.j.get('impl_self_adt') == NODE_CELL[0]:
+                continue
+            # does the call work on node-derived data?
+            node_args = []
+            for a in t['args']:
+                src = b.origins(a, through_calls=thr)
+                if any(o[0] == 'call' and o[1] in [g[0] for g in gets] for o in src):
+                    node_args.append(a)
+            if not node_args:
+                continue
+            n += 1
+            # a NodeReservation on that node alive across the call
+            res = [(rbb, rt) for rbb, rt in b.calls(include_cleanup=False)
+                   if b.local_ty(rt['dest']['local']).startswith('debt::list::NodeReservation') and b.dominates(rbb, bb) and rbb != bb]
+            ok = False
+            why = 'no writer reservation on the thread\'s own node is held across the call'
+            for (rbb, rt) in res:
+                same = b.origins(rt['args'][0], through_calls=thr) & b.origins(node_args[0], through_calls=thr)
+                drops = [d for d, dt in b.drops(include_cleanup=False) if dt['place']['local'] == rt['dest']['local']]
+                after = bool(drops) and all(b.dominates(bb, d) for d in drops)
+                if same and after:
+                    ok = True
+                    why = 'reserve_writer() on the same node at %s, released at %s after the call' % (b.loc(rbb), [b.loc(d) for d in drops])
+            col.add('NODE-STABLE', '%s|%s' % (b.fname, cb.fname.split('::')[-1]), ok,
+                    '%s works on the thread\'s own node while it can re-enter the library (a nested load may wrap the generation, cool this node down '
+                    'and attach another one): %s' % (cb.fname, why), b.loc(bb))
+    col.floor('NODE-STABLE', 're-entrant calls on the own node', n, 1)
